@@ -86,7 +86,7 @@ func safePrimePairRule(P *Program, R *Report) {
 		// the tested value is the returned p
 		ok := false
 		allInstrs(fn, func(i ssa.Instruction) {
-			if c, isC := i.(*ssa.Call); isC && bigMethod(c) == "Rsh" && c.Call.Args[1] == recv {
+			if c, isC := i.(*ssa.Call); isC && bigMethod(c) == "Rsh" && callArgs(c)[1] == recv {
 				ok = true
 			}
 		})
@@ -101,7 +101,7 @@ func safePrimePairRule(P *Program, R *Report) {
 			return
 		}
 		n++
-		candD = desc(c.Call.Args[0])
+		candD = desc(callArgs(c)[0])
 		r := (&MustPass{P: P, Match: isTest}).MustReach(fn, c)
 		R.decide(rule, kGenPair+":candidates-tested", "a prime is kept as a candidate for q only after passing the same residue test", r.Holds, r.Path, P.Pos(c.Pos()))
 	})
@@ -110,7 +110,7 @@ func safePrimePairRule(P *Program, R *Report) {
 	if !inlined {
 		mp(P, R, rule, kGenPair+":q-from-findMatch", "(p, q) returned => q is the non-nil result of findMatch(candidates, param, p, ...)", fn, AcceptNonNil(0), &MustPass{Match: func(a Atom) bool {
 			c, _ := callAndResult(a.V)
-			return c != nil && calleeIs(c, kFindM) && a.Want == NonNil && c.Call.Args[2] == recv
+			return c != nil && calleeIs(c, kFindM) && a.Want == NonNil && callArgs(c)[2] == recv
 		}})
 		okQ := false
 		for _, r := range returnsOf(fn) {
@@ -194,7 +194,7 @@ func safePrimePairRule(P *Program, R *Report) {
 	okSize := false
 	for _, c := range callsIn(fn) {
 		if isCallTo(c, kGenConc) {
-			a, _ := affineOf(c.Common().Args[0])
+			a, _ := affineOf(callArgs(c)[0])
 			okSize = a.String() == "(Ln)/2" || a.String() == "(base.Ln)/2"
 		}
 	}
@@ -273,10 +273,10 @@ func safeprimeGenerateRule(P *Program, R *Report) {
 	}
 	mp(P, R, rule, kSPGen+":safe-prime-tested", "a prime is returned only after ProbablySafePrime(returned value, k >= 40) was true", fn, AcceptNonNil(0), &MustPass{Match: func(a Atom) bool {
 		c, ok := callAtom(a, True, "safeprime.ProbablySafePrime")
-		if !ok || siteOf(c.Call.Args[0]) != siteOf(retV) {
+		if !ok || siteOf(callArgs(c)[0]) != siteOf(retV) {
 			return false
 		}
-		k, okk := constInt(c.Call.Args[1])
+		k, okk := constInt(callArgs(c)[1])
 		return okk && k >= 40
 	}})
 	for _, r := range returnsOf(fn) {
@@ -296,12 +296,12 @@ func probablySafePrimeRule(P *Program, R *Report, rule string) {
 	if ps := mustFunc(P, R, rule, "safeprime.ProbablySafePrime"); ps != nil {
 		mp(P, R, rule, FuncKey(ps)+":both", "ProbablySafePrime is true only if x and (x-1)/2 are both probably prime", ps, AcceptTrue(0), &MustPass{Match: func(a Atom) bool {
 			c, _ := callAndResult(a.V)
-			return c != nil && bigMethod(c) == "ProbablyPrime" && a.Want == True && desc(c.Call.Args[0]) == "arg#0"
+			return c != nil && bigMethod(c) == "ProbablyPrime" && a.Want == True && desc(callArgs(c)[0]) == "arg#0"
 		}})
 		bp := P.bigEval(ps)
 		mp(P, R, rule, FuncKey(ps)+":half", "…and (x-1)/2 (or x>>1) is probably prime", ps, AcceptTrue(0), &MustPass{Match: func(a Atom) bool {
 			c, _ := callAndResult(a.V)
-			if c == nil || bigMethod(c) != "ProbablyPrime" || a.Want != True || desc(c.Call.Args[0]) == "arg#0" {
+			if c == nil || bigMethod(c) != "ProbablyPrime" || a.Want != True || desc(callArgs(c)[0]) == "arg#0" {
 				return false
 			}
 			ts := bp.at(c)
@@ -407,7 +407,7 @@ func generateKeyPairRule(P *Program, R *Report) {
 					return false
 				}
 				c, isC := g.SubjV.(*ssa.Call)
-				return isC && calleeIs(c, "common.LegendreSymbol") && sameValue(c.Call.Args[0], sv) && desc(c.Call.Args[1]) == privD+"."+f
+				return isC && calleeIs(c, "common.LegendreSymbol") && sameValue(callArgs(c)[0], sv) && desc(callArgs(c)[1]) == privD+"."+f
 			}}).MustReach(fn, sStore)
 			R.decide(rule, kGenKey+":S-residue-mod-"+f, "S accepted => Legendre symbol of S modulo "+f+" is 1", r.Holds, r.Path, P.Pos(sStore.Pos()))
 		}
@@ -419,7 +419,7 @@ func generateKeyPairRule(P *Program, R *Report) {
 		// S drawn with Ln bits
 		okS := false
 		if g := genCallOf(phiFirst(sv)); g != nil {
-			a, _ := affineOf(g.Call.Args[0])
+			a, _ := affineOf(callArgs(g)[0])
 			okS = a.String() == "Ln" || a.String() == "base.Ln"
 		}
 		R.decide(rule, kGenKey+":S-source", "S is drawn as RandomBigInt(Ln)", okS, desc(sv), P.Pos(sStore.Pos()))
@@ -430,7 +430,7 @@ func generateKeyPairRule(P *Program, R *Report) {
 			R.bad(rule, kGenKey+":"+name, name+" = S^x mod N", "not found", P.Pos(fn.Pos()))
 			return
 		}
-		a := expCall.Call.Args
+		a := callArgs(expCall)
 		okBase := desc(a[1]) == "new:gabikeys.PublicKey.S" && desc(a[3]) == "new:gabikeys.PublicKey.N"
 		x := a[2]
 		g := genCallOf(phiFirst(x))
@@ -532,7 +532,7 @@ func generateKeyPairRule(P *Program, R *Report) {
 		if !ok || bigMethod(c) != "Exp" {
 			return
 		}
-		if strings.Contains(desc(c.Call.Args[0]), ".R[") {
+		if strings.Contains(desc(callArgs(c)[0]), ".R[") {
 			rExp = c
 		} else {
 			// stored to Z?
@@ -572,7 +572,7 @@ func generateKeyPairRule(P *Program, R *Report) {
 		okCall := false
 		for _, c := range callsIn(fn) {
 			if isCallTo(c, kGenRevKP) {
-				okCall = desc(c.Common().Args[0]) == privD && desc(c.Common().Args[1]) == "new:gabikeys.PublicKey"
+				okCall = desc(callArgs(c)[0]) == privD && desc(callArgs(c)[1]) == "new:gabikeys.PublicKey"
 			}
 		}
 		R.decide(rule, kGenKey+":revocation", "the revocation key pair is generated for this very key pair", okCall, "", P.Pos(fn.Pos()))
@@ -848,7 +848,7 @@ func goroutineProtocolRule(P *Program, R *Report, rule string) {
 		}
 		allInstrs(f, func(i ssa.Instruction) {
 			c, ok := i.(*ssa.Call)
-			if !ok || !isCallTo(c, "builtin:close") || !isStopChan(c.Call.Args[0]) {
+			if !ok || !isCallTo(c, "builtin:close") || !isStopChan(callArgs(c)[0]) {
 				return
 			}
 			nClose++
@@ -859,7 +859,7 @@ func goroutineProtocolRule(P *Program, R *Report, rule string) {
 					underOnce = true
 				}
 			}
-			R.decide(rule, FuncKey(f)+":close("+chanName(c.Call.Args[0])+")", "the shared stop signal is closed through sync.Once (several goroutines may want to close it)", underOnce, "close outside sync.Once.Do", P.Pos(c.Pos()))
+			R.decide(rule, FuncKey(f)+":close("+chanName(callArgs(c)[0])+")", "the shared stop signal is closed through sync.Once (several goroutines may want to close it)", underOnce, "close outside sync.Once.Do", P.Pos(c.Pos()))
 		})
 	}
 	R.decide(rule, kGenConc+":close-sites", "the stop signal has a close site", nClose >= 1, fmt.Sprintf("%d", nClose), P.Pos(fn.Pos()))
@@ -867,7 +867,7 @@ func goroutineProtocolRule(P *Program, R *Report, rule string) {
 	if gp := mustFunc(P, R, rule, kGenPair); gp != nil {
 		mp(P, R, rule, kGenPair+":stops-workers", "every return path closes the stop channel handed to GenerateConcurrent", gp, AcceptAny(), &MustPass{Instr: func(_ *ssa.Function, i ssa.Instruction) bool {
 			c, ok := i.(*ssa.Call)
-			return ok && isCallTo(c, "builtin:close") && desc(c.Call.Args[0]) == "makechan"
+			return ok && isCallTo(c, "builtin:close") && desc(callArgs(c)[0]) == "makechan"
 		}})
 	}
 	if fs := mustFunc(P, R, rule, "keyproof.findSafePrime"); fs != nil {
@@ -876,7 +876,7 @@ func goroutineProtocolRule(P *Program, R *Report, rule string) {
 			if s, ok := i.(*ssa.Send); ok && desc(s.Chan) == "makechan" {
 				okSig = true
 			}
-			if c, ok := i.(*ssa.Call); ok && isCallTo(c, "builtin:close") && desc(c.Call.Args[0]) == "makechan" {
+			if c, ok := i.(*ssa.Call); ok && isCallTo(c, "builtin:close") && desc(callArgs(c)[0]) == "makechan" {
 				okSig = true
 			}
 		})
@@ -935,10 +935,10 @@ func validateKeyRule(P *Program, R *Report, rule string) {
 		}})
 		mp(P, R, rule, FuncKey(fn)+":"+pr[0]+"-safe-prime", "nil => ProbablySafePrime("+pr[0]+", k >= 40)", fn, AcceptNilErr(0), &MustPass{Match: func(a Atom) bool {
 			c, ok := callAtom(a, True, "safeprime.ProbablySafePrime")
-			if !ok || desc(c.Call.Args[0]) != prv+"."+pr[0] {
+			if !ok || desc(callArgs(c)[0]) != prv+"."+pr[0] {
 				return false
 			}
-			k, okk := constInt(c.Call.Args[1])
+			k, okk := constInt(callArgs(c)[1])
 			return okk && k >= 40
 		}})
 	}
